@@ -19,10 +19,11 @@
 EXTENDS Integers, Sequences, FiniteSets, TLC, Json
 
 Trace == ndJsonDeserialize("trace.ndjson")
-VARIABLES l, bad, nReg, nAuth
-tvars == <<l, bad, nReg, nAuth>>
+VARIABLES l, bad, nReg, nAuth,
+          prevEnts, prevOwn    \* entities and <<runtime, owning entity>> pairs at the end of the previous block ({} at the start of a chain)
+tvars == <<l, bad, nReg, nAuth, prevEnts, prevOwn>>
 Ev == Trace[l]
-TraceInit == l = 1 /\ bad = "none" /\ nReg = 0 /\ nAuth = 0
+TraceInit == l = 1 /\ bad = "none" /\ nReg = 0 /\ nAuth = 0 /\ prevEnts = {} /\ prevOwn = {}
 
 RECURSIVE FirstBad(_)
 FirstBad(cs) == IF cs = <<>> THEN "none" ELSE IF ~Head(cs)[1] THEN "C17: " \o Head(cs)[2] ELSE FirstBad(Tail(cs))
@@ -49,8 +50,12 @@ TrReg ==
                                         \cup {"runtime:" \o r.id : r \in {x \in SeqSet(R.runtimes) : x.claim_account = a}},
               "K5 stake claims differ from those implied by the registered entities, nodes and runtimes">>,
             <<\A r \in SeqSet(R.runtimes) : r.claim_account \in DOMAIN R.claims, "K5 a registered runtime's governing account holds no claim record">>,
-            <<\A r \in SeqSet(R.runtimes) : r.ent \in ents, "K4 a registered runtime's owning entity is not registered">>
+            \* (a runtime may be handed to an entity that is not registered - the update rules do not look at the new owner; what
+            \*  the property forbids is the REMOVAL of an entity that owns a runtime: it owned it before the block and still does)
+            <<\A e \in prevEnts \ ents : ~\E r \in SeqSet(R.runtimes) : r.ent = e /\ <<r.id, e>> \in prevOwn,
+              "K4 an entity was removed while it owned a runtime">>
           >>)
+    /\ prevEnts' = DOMAIN Ev.reg.entities /\ prevOwn' = {<<r.id, r.ent>> : r \in SeqSet(Ev.reg.runtimes)}
     /\ nReg' = nReg + 1 /\ UNCHANGED nAuth
 
 RegistryKinds == {"regnode", "deregentity", "regruntime", "regentity"}
@@ -62,11 +67,12 @@ TrTx ==
            \*  still owns a node when the transaction runs depends on expiries and hand-overs earlier in the same block)
        IN /\ SetBad(<< <<unauth => Ev.code # 0, "A1/K4 a registry transaction without the required authority succeeded">> >>)
           /\ nAuth' = nAuth + (IF unauth THEN 1 ELSE 0)
-    /\ UNCHANGED nReg
+    /\ UNCHANGED <<nReg, prevEnts, prevOwn>>
 
-Known == {"reg", "tx"}
-TrSkip == l <= Len(Trace) /\ Ev.ev \notin Known /\ l' = l + 1 /\ UNCHANGED <<bad, nReg, nAuth>>
-TraceNext == TrReg \/ TrTx \/ TrSkip
+Known == {"reg", "tx", "begin_chain"}
+TrChain == l <= Len(Trace) /\ Ev.ev = "begin_chain" /\ l' = l + 1 /\ prevEnts' = {} /\ prevOwn' = {} /\ UNCHANGED <<bad, nReg, nAuth>>
+TrSkip == l <= Len(Trace) /\ Ev.ev \notin Known /\ l' = l + 1 /\ UNCHANGED <<bad, nReg, nAuth, prevEnts, prevOwn>>
+TraceNext == TrReg \/ TrTx \/ TrChain \/ TrSkip
 TraceSpec == TraceInit /\ [][TraceNext]_tvars
 RuleHolds == bad = "none"
 TraceAccepted == TLCGet("stats").diameter - 1 = Len(Trace)
